@@ -38,8 +38,8 @@ H_QUICK = 164               # family H: 10 440 builder sequences (length <= 3) i
 H_THOROUGH = 2774           # 177 482 builder sequences (length <= 4)
 
 PLAN = {
-    "C01": {"quick": [native("A", 12, Q), native("B", 4, Q), miri("A", MQ)], "thorough": [native("A", 24, T), native("B", 8, T), native("E", 8, T / 2), miri("A", MT), miri("B", MT // 4)]},
-    "C02": {"quick": [native("A", 12, Q), native("C", 4, Q), miri("A", MQ)], "thorough": [native("A", 24, T), native("C", 8, T), native("B", 8, T / 2), miri("A", MT), miri("C", MT // 4)]},
+    "C01": {"quick": [native("A", 12, Q), native("B", 4, Q), miri("A", MQ // 2), miri("B", MQ // 2, count=3)], "thorough": [native("A", 24, T), native("B", 8, T), native("E", 8, T / 2), miri("A", MT), miri("B", MT // 4)]},
+    "C02": {"quick": [native("A", 12, Q), native("C", 4, Q), miri("A", MQ // 2), miri("C", MQ // 2, count=3)], "thorough": [native("A", 24, T), native("C", 8, T), native("B", 8, T / 2), miri("A", MT), miri("C", MT // 4)]},
     "C03": {"quick": [native("A", 12, Q), native("D", 4, Q), miri("A", MQ)], "thorough": [native("A", 24, T), native("D", 8, T), miri("A", MT), miri("D", MT // 4)]},
     "C04": {"quick": [native("B", 10, Q), native("D", 4, Q), native("K", 2, Q), miri("B", MQ, count=3)], "thorough": [native("B", 24, T), native("D", 8, T), miri("B", MT, count=3), miri("D", MT // 4)]},
     "C05": {"quick": [native("C", 12, Q), native("B", 4, Q), miri("C", MQ, count=3)], "thorough": [native("C", 24, T), native("B", 8, T), miri("C", MT, count=3), miri("B", MT // 4)]},
